@@ -83,11 +83,13 @@ pub struct Knobs {
     pub content_bias: u64,  // out of 10
     pub error_bias: u64,    // out of 100: erroring conditions / expressions
     pub eventless_bias: u64, // out of 10
+    pub nested_parallel_bias: u64, // out of 10: a region of a parallel is itself a parallel
+    pub finisher_bias: u64, // out of 10: a sibling of a final state gets a transition to it
 }
 
 impl Default for Knobs {
     fn default() -> Self {
-        Knobs { max_states: 14, history_bias: 3, final_bias: 2, parallel_bias: 3, content_bias: 5, error_bias: 6, eventless_bias: 2 }
+        Knobs { max_states: 14, history_bias: 3, final_bias: 2, parallel_bias: 3, content_bias: 5, error_bias: 6, eventless_bias: 2, nested_parallel_bias: 2, finisher_bias: 2 }
     }
 }
 
@@ -141,7 +143,7 @@ fn gen_state(c: &mut Ctx, depth: usize, allow_final: bool, force_kind: Option<Ki
         Kind::Parallel => {
             let n = c.p.range(2, 3);
             for _ in 0..n {
-                let fk = if c.p.chance(1, 6) && c.count < c.k.max_states { Some(Kind::Parallel) } else { Some(Kind::State) };
+                let fk = if c.p.chance(c.k.nested_parallel_bias, 10) && c.count < c.k.max_states { Some(Kind::Parallel) } else { Some(Kind::State) };
                 st.kids.push(gen_state(c, depth + 1, false, fk));
             }
         }
@@ -151,7 +153,9 @@ fn gen_state(c: &mut Ctx, depth: usize, allow_final: bool, force_kind: Option<Ki
                 for _ in 0..n {
                     st.kids.push(gen_state(c, depth + 1, true, None));
                 }
-                // a compound state needs a non-final child to be interesting; keep whatever came out
+                if c.p.chance(c.k.final_bias, 10) && !st.kids.iter().any(|k| k.kind == Kind::Final) && c.count < c.k.max_states + 2 {
+                    st.kids.push(gen_state(c, depth + 1, true, Some(Kind::Final)));
+                }
             }
         }
     }
@@ -376,6 +380,19 @@ fn fill(s: &mut GState, c: &mut Ctx, infos: &[Info]) {
             s.trans.push(t);
         }
     }
+    // a state next to a final sibling often gets a plain transition into it, so that regions
+    // actually finish (done.state.* and parallel completion are exercised)
+    if s.kind != Kind::Final {
+        if let Some(pi) = infos[me].parent {
+            let finals: Vec<usize> = infos[pi].kids.iter().cloned().filter(|&k| infos[k].kind == Kind::Final).collect();
+            if !finals.is_empty() && c.p.chance(c.k.finisher_bias, 10) {
+                let mut t = GTrans::default();
+                t.events.push((*c.p.pick(EVENTS)).to_string());
+                t.targets = vec![infos[*c.p.pick(&finals)].id.clone()];
+                s.trans.insert(0, t);
+            }
+        }
+    }
     let ne = c.p.below(3);
     for _ in 0..ne {
         c.raise_ok = c.p.chance(1, 4);
@@ -595,4 +612,146 @@ pub fn count_states(d: &GDoc) -> usize {
 pub fn gen_events(p: &mut Prng, n_max: u64) -> Vec<String> {
     let n = p.range(2, n_max);
     (0..n).map(|_| (*p.pick(EVENTS)).to_string()).collect()
+}
+
+
+// ---------------------------------------------------------------------------------------------
+// Template: regions that finish.  A parallel state whose regions (compound states with a final
+// child, or nested parallels of such) are driven into their final states by dedicated events, in a
+// random order, with handlers for the resulting done.state.* events.  Used for C07 (and C03).
+
+fn leaf_region(id: &mut usize, ev: &mut usize, events: &mut Vec<String>, p: &mut Prng) -> GState {
+    *id += 1;
+    let rid = format!("r{}", *id);
+    *ev += 1;
+    let e = format!("e{}", *ev);
+    events.push(e.clone());
+    let mk = |id: String, kind: Kind| GState {
+        id,
+        kind,
+        kids: vec![],
+        hist: vec![],
+        trans: vec![],
+        onentry: vec![],
+        onexit: vec![],
+        init: Init::Default,
+        data: vec![],
+        donedata: None,
+    };
+    let mut a = mk(format!("{}a", rid), Kind::State);
+    let mut f = mk(format!("{}f", rid), Kind::Final);
+    a.trans.push(GTrans { events: vec![e], targets: vec![f.id.clone()], ..Default::default() });
+    if p.chance(1, 3) {
+        f.donedata = Some(vec![("p".to_string(), "v0 + 1".to_string())]);
+    }
+    if p.chance(1, 3) {
+        f.onentry.push(vec![GItem::Log("v0".to_string())]);
+    }
+    let mut r = mk(rid.clone(), Kind::State);
+    // sometimes a second ordinary state, so that the final is not reached in one step
+    if p.chance(1, 3) {
+        *ev += 1;
+        let e2 = format!("e{}", *ev);
+        events.push(e2.clone());
+        let mut b = mk(format!("{}b", rid), Kind::State);
+        b.trans.push(GTrans { events: vec![e2], targets: vec![a.id.clone()], ..Default::default() });
+        r.kids.push(b);
+    }
+    r.kids.push(a);
+    r.kids.push(f);
+    r
+}
+
+fn par_region(depth: usize, id: &mut usize, ev: &mut usize, events: &mut Vec<String>, dones: &mut Vec<String>, p: &mut Prng) -> GState {
+    *id += 1;
+    let pid = format!("p{}", *id);
+    dones.push(pid.clone());
+    let n = p.range(2, 3);
+    let mut kids = vec![];
+    for _ in 0..n {
+        if depth < 2 && p.chance(2, 5) {
+            kids.push(par_region(depth + 1, id, ev, events, dones, p));
+        } else {
+            let r = leaf_region(id, ev, events, p);
+            dones.push(r.id.clone());
+            kids.push(r);
+        }
+    }
+    GState {
+        id: pid,
+        kind: Kind::Parallel,
+        kids,
+        hist: vec![],
+        trans: vec![],
+        onentry: vec![],
+        onexit: if p.chance(1, 2) { vec![vec![GItem::Log("v1".to_string())]] } else { vec![] },
+        init: Init::Default,
+        data: vec![],
+        donedata: None,
+    }
+}
+
+pub fn gen_finals_doc(p: &mut Prng) -> (GDoc, Vec<String>) {
+    let mut id = 0usize;
+    let mut ev = 0usize;
+    let mut events = vec![];
+    let mut dones = vec![];
+    let mut par = par_region(0, &mut id, &mut ev, &mut events, &mut dones, p);
+    let mk = |id: &str, kind: Kind| GState {
+        id: id.to_string(),
+        kind,
+        kids: vec![],
+        hist: vec![],
+        trans: vec![],
+        onentry: vec![],
+        onexit: vec![],
+        init: Init::Default,
+        data: vec![],
+        donedata: None,
+    };
+    // handlers for done.state.* on the outermost parallel: each logs, one of them leaves
+    let outer = par.id.clone();
+    for d in &dones {
+        if p.chance(2, 3) {
+            par.trans.push(GTrans {
+                events: vec![format!("done.state.{}", d)],
+                targets: if *d == outer && p.chance(2, 3) { vec!["after".to_string()] } else { vec![] },
+                content: vec![GItem::Assign("v2".to_string(), "v2 + 1".to_string()), GItem::Log("v2".to_string())],
+                ..Default::default()
+            });
+        }
+    }
+    let mut after = mk("after", Kind::State);
+    after.onentry.push(vec![GItem::Log("v2 + 1".to_string())]);
+    after.onexit.push(vec![GItem::Log("v2".to_string())]);
+    after.trans.push(GTrans { events: vec!["x".to_string()], targets: vec!["fin".to_string()], ..Default::default() });
+    let mut top = mk("top", Kind::State);
+    top.onexit.push(vec![GItem::Log("v0".to_string())]);
+    top.kids = vec![par, after];
+    let fin = mk("fin", Kind::Final);
+    // event order: a shuffle of the region events, sometimes with repeats / noise, then maybe x
+    let mut order = events.clone();
+    for i in (1..order.len()).rev() {
+        let j = p.below(i as u64 + 1) as usize;
+        order.swap(i, j);
+    }
+    if p.chance(1, 2) {
+        let extra = order[p.below(order.len() as u64) as usize].clone();
+        let at = p.below(order.len() as u64 + 1) as usize;
+        order.insert(at, extra);
+    }
+    if p.chance(1, 3) {
+        order.truncate(order.len().saturating_sub(1).max(1));
+    }
+    if p.chance(2, 3) {
+        order.push("x".to_string());
+    }
+    if p.chance(1, 2) {
+        order.push("a".to_string());
+    }
+    let data = VARS.iter().map(|v| (v.to_string(), "0".to_string())).collect();
+    (
+        GDoc { late: p.chance(1, 4), root_init: Init::Default, kids: vec![top, fin], data, script: None, datamodel: "vdm".to_string() },
+        order,
+    )
 }
